@@ -58,6 +58,9 @@ func Do(c *http.Client, req *http.Request) *Result {
 	if err != nil {
 		res.BodyErr = err.Error()
 	}
+	if len(resp.Trailer) > 0 { // filled in once the body has been read to its end
+		res.Trailer = resp.Trailer
+	}
 	res.fin()
 	return res
 }
